@@ -97,7 +97,13 @@ class Gateway:
         if self.persistence:
             await self.persistence.load()
             await self.persistence.start()
-        await self.transport.connect()
+        try:
+            await self.transport.connect()
+        except BaseException:
+            # Don't leave the scheduled save task running.
+            if self.persistence:
+                await self.persistence.stop()
+            raise
         return self
 
     async def __aexit__(
